@@ -99,16 +99,12 @@ Theorem prql_print_parse_roundtrip :
 Proof. exact PrqlProofs.prql_print_parse_roundtrip. Qed.
 Print Assumptions prql_print_parse_roundtrip.
 
-(* the code's table is the documented table.
-   FULL STATEMENT (false on the unchanged tree):  doc_agrees [] = true.
-   The book's table does not list `~=` (finding C02-N1); every other operator, the order of the levels,
-   the associativities, the unary and range rows and the layering unary -> range -> pratt agree. *)
-Theorem code_table_eq_doc_table_partial : doc_agrees [B_RegexSearch] = true.
+(* the code's table is the documented table (book: reference/syntax/operators.md): same operators, same
+   grouping, same order, same associativity, unary and range rows, layering unary -> range -> pratt.
+   (Full strength since /repo 4e57fcb listed `~=`; before, `~=` was a known omission, C02-N1.) *)
+Theorem code_table_eq_doc_table : doc_agrees [] = true.
 Proof. vm_compute. reflexivity. Qed.
-Print Assumptions code_table_eq_doc_table_partial.
-Theorem code_table_eq_doc_table_refuted : doc_agrees [] = false.
-Proof. vm_compute. reflexivity. Qed.
-Print Assumptions code_table_eq_doc_table_refuted.
+Print Assumptions code_table_eq_doc_table.
 
 Theorem unary_then_range_then_pratt : layer_order = [s_unary; s_range; s_pratt] /\ unary_nests = false.
 Proof. vm_compute. split; reflexivity. Qed.
@@ -148,11 +144,12 @@ Proof. vm_compute. reflexivity. Qed.
 Print Assumptions modelled_algorithms_unchanged.
 
 (* sql_compat: whenever the emitter omits parentheses at a (parent, hole, child), the engine regroups to
-   the same tree or to a rotation licensed by a law -- for EVERY triple of the dialect outside the
-   known classes.
-   FULL STATEMENT (false on the unchanged tree):  bad_table d = [].
-   known_triple = F2 (between) + F5 (dishonest templates) + C02-N3 (regexp) + C02-N2 (equality under
-   comparison) + F4 (comparison chain) + F30 (multiply, right operand on the same level). *)
+   the same tree or to a rotation licensed by a law -- for EVERY triple of the dialect outside the one
+   known class left on the repaired tree.
+   FULL STATEMENT (false):  bad_table d = [].
+   known_triple = F5: the child is a template that declares strength 100 over a top-level `*` or `/`
+   (div_i, math.log).  F2, F4, F30, C02-N2, C02-N3 were repaired in /repo (bfc17a4, 5dd3d34, 5bac898, ac95a5d)
+   and are no longer excused. *)
 Theorem sql_compat_sqlite_partial : sql_compat d_sqlite = true.
 Proof. vm_compute. reflexivity. Qed.
 Print Assumptions sql_compat_sqlite_partial.
@@ -162,20 +159,27 @@ Print Assumptions sql_compat_generic_partial.
 
 Definition mem_triple (t : triple) (l : list triple) : bool :=
   existsb (fun u => leqb (fst (fst t)) (fst (fst u)) && Nat.eqb (snd (fst t)) (snd (fst u)) && leqb (snd t) (snd u)) l.
+Theorem sql_compat_refuted :
+  mem_triple (k_mod, 1, k_div_i)%nat (bad_table d_sqlite) = true      (* F5  c % (a // b) -> c % ROUND(..) * SIGN(a) * SIGN(b) *)
+  /\ mem_triple (k_mod, 1, k_div_i)%nat (bad_table d_generic) = true
+  /\ mem_triple (k_mul, 1, k_math_log)%nat (bad_table d_generic) = true.  (* F5  a * (math.log b c) -> a * LOG10(c) / LOG10(b) *)
+Proof. vm_compute. repeat split; reflexivity. Qed.
+Print Assumptions sql_compat_refuted.
+
+(* the classes repaired in /repo stay repaired: none of their witnesses is a bad triple any more *)
 Definition k_lt : str := (k_op ++ [60])%N.
 Definition k_eq : str := (k_op ++ [61])%N.
 Definition k_add : str := (k_op ++ [43])%N.
-Theorem sql_compat_refuted :
-  forallb (fun t => mem_triple t (bad_table d_sqlite))
-    [ (k_add, 0, k_between)%nat      (* F2  (a | in 1..5) + 1  ->  a BETWEEN 1 AND 5 + 1 *);
-      (k_mod, 1, k_div_i)%nat        (* F5  c % (a // b)       ->  c % ROUND(..) * SIGN(a) * SIGN(b) *);
-      (k_lt, 0, k_eq)%nat            (* N2  (a == b) < c       ->  a = b < c *);
-      (k_lt, 1, k_lt)%nat            (* F4  a < (b < c)        ->  a < b < c *);
-      (k_mul, 1, k_mod)%nat          (* F30 a * (b % c)        ->  a * b % c *);
-      (k_lt, 0, k_regex)%nat         (* N3  (a ~= b) < c       ->  a REGEXP b < c *) ] = true
-  /\ mem_triple (k_mul, 1, k_div_f)%nat (bad_table d_generic) = true.   (* F30, generic `/` *)
-Proof. vm_compute. split; reflexivity. Qed.
-Print Assumptions sql_compat_refuted.
+Theorem repaired_classes_are_fine :
+  forallb (fun t => negb (mem_triple t (bad_table d_sqlite)) && negb (mem_triple t (bad_table d_generic)))
+    [ (k_add, 0, k_between)%nat      (* F2  (a | in 1..5) + 1 *);
+      (k_lt, 0, k_eq)%nat            (* C02-N2 (a == b) < c *);
+      (k_lt, 1, k_lt)%nat            (* F4  a < (b < c) *);
+      (k_mul, 1, k_mod)%nat          (* F30 a * (b % c) *);
+      (k_mul, 1, k_div_f)%nat        (* F30 generic a * (b / c) *);
+      (k_lt, 0, k_regex)%nat         (* C02-N3 (a ~= b) < c *) ] = true.
+Proof. vm_compute. reflexivity. Qed.
+Print Assumptions repaired_classes_are_fine.
 
 (* on the emitter's OWN scale: a template's declared binding_strength is not above the strength the
    emitter gives to the template's top-level operator (all 12 dialects; string/date templates are out of scope).
@@ -192,14 +196,11 @@ Proof. vm_compute. reflexivity. Qed.
 Print Assumptions template_strength_honest_refuted.
 
 (* every hole asks for at least what its position in the template text needs.
-   Known: bigquery math.degrees / math.radians (`({column:0} * 180 / PI())`, C02-N4) and the right operand of
-   the infix regex templates (`{text} ~ {pattern}`, `{text} REGEXP {pattern}`). *)
+   Known: the right operand of the infix regex templates of postgres / glaredb (`{text} ~ {pattern}`).
+   (bigquery math.degrees / radians, C02-N4, and sqlite REGEXP, C02-N3, were repaired: eca0a1b, ac95a5d.) *)
 Definition known_insufficient : list str :=
-  [tname_of [98;105;103;113;117;101;114;121] [109;97;116;104;46;100;101;103;114;101;101;115];
-   tname_of [98;105;103;113;117;101;114;121] [109;97;116;104;46;114;97;100;105;97;110;115];
-   tname_of [112;111;115;116;103;114;101;115] [114;101;103;101;120;95;115;101;97;114;99;104];
-   tname_of [103;108;97;114;101;100;98] [114;101;103;101;120;95;115;101;97;114;99;104];
-   tname_of [115;113;108;105;116;101] [114;101;103;101;120;95;115;101;97;114;99;104]]%N.
+  [tname_of [112;111;115;116;103;114;101;115] [114;101;103;101;120;95;115;101;97;114;99;104];
+   tname_of [103;108;97;114;101;100;98] [114;101;103;101;120;95;115;101;97;114;99;104]]%N.
 Theorem hole_strength_sufficient_partial :
   forallb (fun t => negb (in_scope_template t) || mem (tname t) known_insufficient || template_holes_sufficient t) templates = true.
 Proof. vm_compute. reflexivity. Qed.
@@ -239,19 +240,22 @@ Proof. exact (fun d e p => SqlProofs.sql_engine_reads_intended d e p sql_tables_
 Print Assumptions sql_engine_reads_intended.
 
 (* the text layer under Theta-1: a prefix `-` template directly followed by an unparenthesised construct
-   that itself starts with `-`.  FULL STATEMENT (false, F3): adjacency_bad d = [].  Exactly one pair: neg over neg.
-   (Negative literals cannot be operands of std.neg after static_eval: they are folded.) *)
+   whose text starts with `-`.  FULL STATEMENT (false, F3b): adjacency_bad d = [].
+   Since /repo 148aed7 (`-{l:14}`) neg over neg is parenthesised, since 83e82fa a negative number binds like a
+   unary minus; exactly one pair is left: neg over an s-string that starts with `-`. *)
 Definition k_neg : str := (k_tmpl ++ [110;101;103])%N.
-Theorem adjacency_only_neg_neg :
-  forallb (fun d => match adjacency_bad d with [(p, c)] => leqb p k_neg && leqb c k_neg | _ => false end) [d_sqlite; d_generic] = true.
+Theorem adjacency_only_neg_sstring :
+  forallb (fun d => match adjacency_bad d with [(p, c)] => leqb p k_neg && leqb c k_sstr_minus | _ => false end) [d_sqlite; d_generic] = true.
 Proof. vm_compute. reflexivity. Qed.
-Print Assumptions adjacency_only_neg_neg.
+Print Assumptions adjacency_only_neg_sstring.
 
-(* ... and the witness: two tokens fuse into an SQL comment (F3) *)
-Theorem adjacency_unsafe_neg_neg :
-  sql_text d_sqlite (PUnE U_Neg (PUnE U_Neg (PCol 0))) = Some [45; 45; 97]%N.   (* "--a": an SQL comment *)
-Proof. vm_compute. reflexivity. Qed.
-Print Assumptions adjacency_unsafe_neg_neg.
+(* F3 is repaired for operators and literals: -(-a) renders -(-a), the negation of the literal -5 renders -(-5) *)
+Theorem adjacency_neg_neg_fixed :
+  sql_text d_sqlite (PUnE U_Neg (PUnE U_Neg (PCol 0))) = Some [45; 40; 45; 97; 41]%N /\
+  option_map (fun n : node => render_top (fst (fst n), snd (fst n))) (translate d_sqlite 3 (ROp n_neg [RLit (LInt (-5)%Z)]))
+  = Some [45; 40; 45; 53; 41]%N.
+Proof. vm_compute. split; reflexivity. Qed.
+Print Assumptions adjacency_neg_neg_fixed.
 
 (* ================= the front half: ast_expand and static_eval ================= *)
 
